@@ -1,5 +1,5 @@
 CONSTANTS
-  Tier = "quick"
+  Tier = "gen2"
 SPECIFICATION Spec
 INVARIANTS ScalarLemma IupLemma CodecLemma FontOK FontOK2 EmitCase EmitCase2 EmitLemma
 CHECK_DEADLOCK FALSE
